@@ -370,6 +370,14 @@ Definition q_marginal (N : nat) (where_ : list nat) (fix_ : list (nat * nat)) (s
 (* calc_qubit_ordering(qubits) with the default method *)
 Definition q_order (qubits : list nat) : list key := [KOrder 0 (sort_nat qubits)].
 
+(* the key of a memoised conditional marginal: key = (where, tuple(sorted(result.items()))) - the target
+   group and the (qubit, outcome) pairs conditioned on *)
+Definition cond_key (where_ : list nat) (fixed : list (nat * nat)) : key := KCond where_ (sort_pairs fixed).
+(* a compacted variant keeping only the outcome BITS of the conditioned qubits (sorted by qubit): it does
+   not determine the conditioning event once different calls condition on different qubit sets *)
+Definition cond_key_bits (where_ : list nat) (fixed : list (nat * nat)) : list nat * list nat :=
+  (where_, map snd (sort_pairs fixed)).
+
 (* one pass of Circuit.sample over the groups for one sample whose outcome is
    `bits` (qubit -> sampled bit): for each group the conditional key, and - on
    a miss - the keys compute_marginal touches.  Hits and misses are decided by
@@ -381,7 +389,7 @@ Fixpoint group_keys (N : nat) (groups : list (list nat)) (fixed : list (nat * na
   match groups with
   | [] => []
   | g :: r =>
-      let ck := KCond g (sort_pairs fixed) in
+      let ck := cond_key g fixed in
       let mk := q_marginal N g fixed sq atol in
       let newfixed := fixed ++ filter (fun p => existsb (Nat.eqb (fst p)) g) bits in
       (ck, mk) :: group_keys N r newfixed bits sq atol
@@ -407,11 +415,11 @@ Fixpoint access_groups (gk : list (key * list key)) (s : st) : st * list event :
       let '(s2, e2) := access_groups r s1 in (s2, e1 ++ e2)
   end.
 
-(* Circuit.sample(C=1, qubits=None, order=order or None, group_size): *)
-Definition sample_one (N : nat) (order_given : bool) (groups : list (list nat))
+(* Circuit.sample(C=1, qubits=qubits (range(N) when None), order=order or None, group_size): *)
+Definition sample_one (N : nat) (qubits : list nat) (order_given : bool) (groups : list (list nat))
            (bits : list (nat * nat)) (sq atol : nat) (s : st) : st * list event :=
   let s0 := maybe_init s in
-  let '(s1, e1) := if order_given then (s0, []) else access (q_order (seq 0 N)) s0 in
+  let '(s1, e1) := if order_given then (s0, []) else access (q_order qubits) s0 in
   let '(s2, e2) := access_groups (group_keys N groups [] bits sq atol) s1 in
   (s2, e1 ++ e2).
 
@@ -419,13 +427,13 @@ Definition sample_one (N : nat) (order_given : bool) (groups : list (list nat))
 Inductive op :=
 | Mut (m : mut)
 | Query (ks : list key)    (* _maybe_init_storage(); then each key: hit, or miss + compute + store *)
-| Sample (N : nat) (order_given : bool) (groups : list (list nat)) (bits : list (nat * nat)) (sq atol : nat).
+| Sample (N : nat) (qubits : list nat) (order_given : bool) (groups : list (list nat)) (bits : list (nat * nat)) (sq atol : nat).
 
 Definition step (s : st) (o : op) : st * list event :=
   match o with
   | Mut m => (apply_mut m s, [])
   | Query ks => access ks (maybe_init s)
-  | Sample N og groups bits sq atol => sample_one N og groups bits sq atol s
+  | Sample N qs og groups bits sq atol => sample_one N qs og groups bits sq atol s
   end.
 
 Fixpoint run (s : st) (ops : list op) : st * list event :=
